@@ -18,6 +18,7 @@ CONSTANTS
   Paces = {"burst"}
   DevSpin = FALSE
   DevNoUnblock = FALSE
+  DevAliasFlush = FALSE
 SPECIFICATION BSpec
 INVARIANTS BTypeOK BPipe BComplete BReverseKeepsFlowing BNoSpuriousEnd
 PROPERTIES BMonotone BTermination BReverseDelivered
